@@ -19,6 +19,7 @@ import (
 	"os"
 	"runtime/debug"
 	"strconv"
+	"strings"
 	"sync"
 	"sync/atomic"
 	"testing"
@@ -613,6 +614,7 @@ var (
 	budgetOverride time.Duration // set by the fuzz worker
 	graceScale     = 1.0
 	maxTries       = 3
+	confirmedHang  atomic.Bool
 	drainWait      = 2 * time.Second
 )
 
@@ -769,7 +771,17 @@ func run(cs Case) ev.Outcome {
 	}
 	var at attempt
 	hangs := 0
-	for try := 0; try < maxTries; try++ {
+	tries := maxTries
+	if confirmedHang.Load() {
+		// A hang was already confirmed three times in this process (the
+		// verdict is settled, this is shrinking / further enumeration, and
+		// spinning goroutines of earlier attempts may still eat CPU).
+		tries = 1
+	}
+	for try := 0; try < tries; try++ {
+		if tries == 1 {
+			try = len(barrierGrace) - 1
+		}
 		at = runOnce(cs, try)
 		if at.hang == "" {
 			break
@@ -780,7 +792,10 @@ func run(cs Case) ev.Outcome {
 		return ev.Fail(at.fail.sig, "%s", at.fail.msg)
 	}
 	if at.hang != "" {
-		return ev.Fail(at.hang, "reproduced in %d of %d attempts: %s", hangs, maxTries, at.hangMsg)
+		if tries == maxTries {
+			confirmedHang.Store(true)
+		}
+		return ev.Fail(at.hang, "reproduced in %d of %d attempts: %s", hangs, tries, at.hangMsg)
 	}
 
 	mods := [2]wmodel{modelOf(cs.AB.Ops), modelOf(cs.BA.Ops)}
@@ -1022,6 +1037,9 @@ func TestEdges(t *testing.T) {
 		out := run(cs)
 		if out.Err != "" && !col.IsKnown(out.Sig) {
 			failed++
+			if strings.HasPrefix(out.Sig, "hang/") {
+				failed += 5 // expensive: at most two of them
+			}
 		}
 		return out
 	}
